@@ -215,6 +215,11 @@ class SgzReader(object):
         self.chunk_bytes = self.block_bytes * (self.shape_pad[2] // self.blockshape[2])
         assert self.chunk_bytes % self.block_bytes == 0
 
+        # Files written before the size of the data section was recorded carry 0 here: derive it
+        if self.compressed_data_diskblocks == 0:
+            self.compressed_data_diskblocks = int(self.shape_pad[0] * self.shape_pad[1] * self.shape_pad[2]
+                                                  * self.rate) // 8 // DISK_BLOCK_BYTES
+
         # Placeholder. Don't read these if you're not going to use them
         self.variant_headers = {}
         self.include_padding = None
